@@ -208,7 +208,7 @@ def mutate(s, alpha, rnd):
 
 
 def inputs_for(g: Grammar, rule: str, rnd: random.Random, n_sent=10, n_total=40, maxbytes=48, ws_inject=False,
-               unicode_heavy=False):
+               unicode_heavy=False, long_inputs=False):
     sg = Sentences(g, rnd)
     alpha = sg.alphabet()
     if unicode_heavy:
@@ -252,6 +252,20 @@ def inputs_for(g: Grammar, rule: str, rnd: random.Random, n_sent=10, n_total=40,
         for _ in range(rnd.choice([1, 1, 2, 3])):
             m = mutate(m, alpha, rnd)
         add(m)
+    if long_inputs:
+        # inputs well beyond 50 bytes with multi-byte characters everywhere (trace output, long-distance effects)
+        wide = alpha + ["é", "😀", "日", "ß", "€", "́"]
+        for s in sents[:5]:
+            tail = "".join(rnd.choice(wide) for _ in range(rnd.randint(30, 120)))
+            x = trunc(s + tail, 200)
+            if x not in seen:
+                seen.add(x)
+                out.append(x)
+            y = trunc((s + rnd.choice(["", " ", "é"])) * rnd.randint(3, 12), 200)
+            if y not in seen:
+                seen.add(y)
+                out.append(y)
+        n_total += 10
     # random strings
     for _ in range(max(2, n_total // 10)):
         add("".join(rnd.choice(alpha) for _ in range(rnd.randint(1, 6))))
